@@ -17,6 +17,7 @@ import Hts.Lemmas.WriterLTSComp
 import Hts.Lemmas.ReaderFaults
 import Hts.Lemmas.FaultRun
 import Hts.Lemmas.FaultNoFault
+import Hts.Lemmas.ReaderOverLTSFaults
 namespace Hts.Props.C09
 open Hts.Model.WriterLTS
 
@@ -394,5 +395,45 @@ example : ∃ r0, Reader.new exFile = .ok r0 ∧
   ⟨_, rfl, by decide⟩
 
 end ReaderOperational
+
+/-! ### rd > 1 under faults: the operational theorems carried over the read-ahead protocol
+
+`Model/ReaderOverLTS.lean`: the byte-level code of Read/ReadByte/Seek as a program (`gRunF r0 ops`) whose block
+fetches are calls into the read-ahead LTS of C02; `Over cfg F p s outs t` runs it along ANY path of the LTS (any
+interleaving with the worker), here with `faults := true` (every load of either thread may fail). -/
+
+section ReaderOverProtocol
+open Hts Hts.Model Hts.Model.Bgzf Hts.Model.ReadAhead Hts.Spec.Flat
+
+/-- **Every execution with rd ≥ 2 is an execution of the fault model.**  For every well-formed file, rd ≥ 2,
+script of nextBlock/Seek/Close operations, history, path of the protocol and fault pattern: what the history
+returns per operation (bytes, error, reader state) is what `FReader` (the operational model the theorems above
+are about) returns for SOME fault oracle — read-ahead, its failures and the scheduler change which loads fail
+and how many are made, never what a call can return. -/
+theorem reader_rd_is_fault_model (F : File) (hwf : WF F) (r0 : Reader) (h0 : Reader.new F = .ok r0)
+    (ops : List Spec.Flat.Op) (rd : Nat) (hrd : 2 ≤ rd) (script : List ReadAhead.Op)
+    (hn : ReadAhead.Op.nexts ∉ script) (outs : List (Out × Reader)) (t : ReadAhead.State)
+    (h : Over ⟨rd, chainOf F, script, true⟩ F (gRunF r0 ops)
+      (ReadAhead.init ⟨rd, chainOf F, script, true⟩) outs t) :
+    ∃ oracle, outs = ((FReader.mk r0 oracle).run ops).map fun p => (p.1, p.2.r) :=
+  over_history_is_fault_model hwf h0 ops rd hrd script hn outs t h
+
+/-- **Never wrong bytes, sticky errors, for rd ≥ 2.**  Hence every such execution of a valid history satisfies
+`RunOK` (`reader_history_correct_under_faults`): each Read/ReadByte returns bytes of the flat copy at the
+position tracked through the successful seeks and nothing else, a returned error is latched and returned again
+until a Seek succeeds, `io.EOF` only at the end of the data unless the source reported a clean end at a member
+start. -/
+theorem reader_never_wrong_bytes_rd (F : File) (hwf : WF F) (r0 : Reader) (h0 : Reader.new F = .ok r0)
+    (ops : List Spec.Flat.Op) (hv : ValidOps (layoutOf F) ops) (rd : Nat) (hrd : 2 ≤ rd)
+    (script : List ReadAhead.Op) (hn : ReadAhead.Op.nexts ∉ script) (outs : List (Out × Reader))
+    (t : ReadAhead.State)
+    (h : Over ⟨rd, chainOf F, script, true⟩ F (gRunF r0 ops)
+      (ReadAhead.init ⟨rd, chainOf F, script, true⟩) outs t) :
+    ∃ oracle, outs = ((FReader.mk r0 oracle).run ops).map (fun p => (p.1, p.2.r)) ∧
+      RunOK F ⟨r0, oracle⟩ 0 ops := by
+  obtain ⟨oracle, ho⟩ := over_history_is_fault_model hwf h0 ops rd hrd script hn outs t h
+  exact ⟨oracle, ho, reader_history_correct_under_faults F hwf r0 h0 oracle ops hv⟩
+
+end ReaderOverProtocol
 
 end Hts.Props.C09
